@@ -349,7 +349,9 @@ func DecorateInt(s *Spec, r *rng.R) {
 		s.NTs[i].Tag = s.Fields[r.Intn(nf)].Name
 	}
 	for i := range s.Terms {
-		if r.Chance(3, 4) {
+		// a tag needs a declaration that can carry it: %token <tag>; literals that are only used in rules
+		// and tokens that only appear in a precedence line stay untagged
+		if r.Chance(3, 4) && s.Terms[i].Decl == DeclToken {
 			s.Terms[i].Tag = s.Fields[r.Intn(nf)].Name
 		} else {
 			s.Terms[i].Tag = ""
